@@ -53,7 +53,7 @@ def is_nested(unit):
 
 class Exec:
     """one execution of a unit by one thread"""
-    __slots__ = ("unit", "thread", "enter", "end", "end_kind", "acts", "extra", "task", "root", "children", "key")
+    __slots__ = ("unit", "thread", "enter", "end", "end_kind", "acts", "extra", "task", "root", "children", "key", "end_extra")
 
     def __repr__(self):
         return "<Exec %s th=%s [%s..%s] %s task=%s>" % (_k(self.unit), self.thread, self.enter, self.end, self.end_kind, self.task)
@@ -113,6 +113,7 @@ class View:
             if what == "enter":
                 e = Exec()
                 e.unit, e.thread, e.enter, e.end, e.end_kind, e.acts, e.extra = unit, th, i, None, None, [], extra or {}
+                e.end_extra = None
                 e.root = self.root_thread(th)
                 e.task = self.task_at(e.root, i)
                 e.children, e.key = [], _k(unit)
@@ -130,7 +131,7 @@ class View:
                 if what.startswith("act:"):
                     e.acts.append((i, int(what[4:])))
                 else:
-                    e.end, e.end_kind = i, what
+                    e.end, e.end_kind, e.end_extra = i, what, extra
                     if len(stack) > 1:
                         stack.pop()
         by_unit_thread = {}
@@ -184,15 +185,27 @@ class View:
             sc = sc[i]["script"]
         return sc or []
 
+    def silent_thread_end(self, e):
+        """the class name when this execution — the script of an lcc.Thread, or a block inside one — was left by a
+        BaseException that is not an Exception (sys.exit() in the thread, GeneratorExit, a project's own BaseException):
+        `threading` lets such a thread die (SystemExit silently, the others through threading.excepthook) and
+        `lcc.Thread.run`, which only handles `Exception`, records nothing — the thread has ended, that is all"""
+        if in_side_thread(e.unit) and e.end_kind == "raise:exc" and isinstance(e.end_extra, dict):
+            return e.end_extra.get("base")
+        return None
+
     def exec_failed(self, e, ignore_interrupted_threads=False):
         """did this execution record a failure (error log / failed check / raise), child threads included"""
         is_child = in_side_thread(e.unit)
-        if e.end_kind and e.end_kind.startswith("raise"):
+        silent = self.silent_thread_end(e)
+        if e.end_kind and e.end_kind.startswith("raise") and not silent:
             if not (ignore_interrupted_threads and is_child and e.end_kind == "raise:interrupted"):
                 return True
         sc = self.script_of(e.unit)
         for _, i in e.acts:
             if i < len(sc) and G.act_fails(sc[i]):
+                if silent and sc[i]["a"] == "raise" and sc[i].get("base"):
+                    continue        # the act that ended the thread
                 return True
         return any(self.exec_failed(c, ignore_interrupted_threads) for c in e.children)
 
@@ -449,7 +462,7 @@ def c02(project, obs, view=None):
                 ti = v.task_of_path.get(("test", tuple(loc[1])))
                 if why is None and ti is not None:
                     for e in v.execs:
-                        if e.task == ti and e.end_kind != "exit":
+                        if e.task == ti and e.end_kind != "exit" and not v.silent_thread_end(e):
                             why = "%r did not run to its end (%r)" % (e, e.end_kind)
                             break
         elif loc[0] in ("setup", "teardown"):
@@ -463,6 +476,16 @@ def c02(project, obs, view=None):
                     why = "%s %s" % (hook, "did not run" if not hs else "was left by %r" % (hs[0].end_kind,))
         if why:
             out.append(F("C02/passed-without-running-to-completion/" + loc[0], "%s is reported passed but %s" % (loc, why)))
+    # an lcc.Thread whose target ends with a BaseException that is not an Exception: sys.exit() is the regular way of
+    # ending a thread from the inside (nothing to report); any other class is an uncaught exception of user code
+    for e in v.execs:
+        base = v.silent_thread_end(e)
+        if base and base != "SystemExit" and not is_block(e.unit):
+            loc = v.location_of_task(e.task)
+            res = _result_at(v, loc) if loc[0] not in ("pre_run", "none") else None
+            if res is not None and res["status"] == "passed":
+                out.append(F("C02/passed-despite-uncaught-base-exception-in-lcc-thread/" + loc[0],
+                             "%s is passed although the lcc.Thread %r ended with an uncaught %s" % (loc, e, base)))
     for loc, e in failed_locs.items():
         if loc[0] in ("pre_run", "none"):
             continue
@@ -1014,7 +1037,10 @@ def recognise(events, nb_threads, complete=True):
                 err("end-without-start", "event %d: %s of %r which is %r" % (n, k, key, results.get(key)))
             left = [t for t, (l, d) in steps.items() if l == key]
             if left:
-                err("result-end-with-open-step", "event %d: %s while a step of thread(s) %r is open" % (n, k, left))
+                # (an open step WITHOUT description has its own signature: finding D39, `set_step("")` is never ended)
+                untitled = all(steps[t][1] == "" for t in left)
+                err("result-end-with-open-step" + ("/untitled-step" if untitled else ""),
+                    "event %d: %s while a step of thread(s) %r is open" % (n, k, left))
             results[key] = "closed"
             current = None
         elif k in ("testSkipped", "testDisabled"):
@@ -1044,7 +1070,8 @@ def recognise(events, nb_threads, complete=True):
             if results.get(key) != "open":
                 err("step-outside-open-result", "event %d: stepStart in %r which is %r" % (n, key, results.get(key)))
             if e["tid"] in steps:
-                err("step-start-while-step-open", "event %d: thread %r already has the open step %r" % (n, e["tid"], steps[e["tid"]]))
+                err("step-start-while-step-open" + ("/untitled-step" if steps[e["tid"]][1] == "" else ""),
+                    "event %d: thread %r already has the open step %r" % (n, e["tid"], steps[e["tid"]]))
             steps[e["tid"]] = (key, e["desc"])
         elif k == "stepEnd":
             key = lk(e["loc"])
@@ -1072,7 +1099,8 @@ def recognise(events, nb_threads, complete=True):
             err("no-session-end", "the stream does not end with sessionEnd")
         left = [p for p, st in suites.items() if st == "open"] + [r for r, st in results.items() if st == "open"] + list(steps.values())
         if left:
-            err("start-without-end", "still open at the end: %r" % left[:4])
+            untitled = all(x in list(steps.values()) and x[1] == "" for x in left)
+            err("start-without-end" + ("/untitled-step" if untitled else ""), "still open at the end: %r" % left[:4])
     return errs
 
 
